@@ -189,7 +189,10 @@ def from_isodatetime(date_time: str | None):
             secs += int(match.group('minutes')) * 60
         if seconds is not None:
             secs += float(match.group('seconds'))
-        return datetime.timedelta(seconds=secs)
+        try:
+            return datetime.timedelta(seconds=secs)
+        except OverflowError as err:
+            raise ValueError(date_time) from err
     if 'T' in date_time:
         match = date_time_re.match(date_time)
         if not match:
